@@ -52,9 +52,11 @@ class Runner:
     def correspond(self, s: core.Stream, pr, r, m):
         """model == code on writes (block by block), labels (in order) and outcome class"""
         c, mm = impl.canon(r), impl.canon_model(m)
-        if c != mm:
+        if not impl.same_outcome(c, mm):
             s.disagree({"src": pr["src"], "rom": pr["rom"]}, mm[:400], c[:400])
             return False
+        if c != mm:
+            s.count("exception-type-differs")
         return True
 
     # ---------------------------------------------------------------- Spec helpers (through the driver)
